@@ -11,6 +11,7 @@ IDS=${@:-$(ls seeded)}
 MISS=0
 for id in $IDS; do
   P=${id%%-*}
+  grep -q superseded_by_fix seeded/$id/meta.json 2>/dev/null && { echo "$id: superseded by a fix (skipped)"; continue; }
   git -C /repo apply ${VERIF_SNAP:-/verif}/seeded/$id/patch.diff || { echo "$id: patch does not apply"; MISS=1; continue; }
   timeout 3600 ./check $P --tier quick > .work/seedsweep.$id.log 2>&1; E=$?
   git -C /repo checkout -- .
